@@ -288,6 +288,48 @@ func goMessage(m protoreflect.Message, byName bool) interface{} {
 	return byI
 }
 
+// capSweep writes the message into caller buffers of every capacity 0..len+16 (the speculative-length
+// fix-up has a separate branch for a buffer that is exactly full) and reports every DISTINCT outcome.
+func (c *c20) capSweep(env *pbEnv, m protoreflect.Message) {
+	gv := goMessage(m, true)
+	ref := dumpMsg(m)
+	full := refMarshal(m.Interface())
+	if len(full) > 600 {
+		return
+	}
+	seen := map[string]bool{}
+	for cp := 0; cp <= len(full)+16; cp++ {
+		ev := map[string]interface{}{"ev": "PMsg", "api": fmt.Sprintf("ByName/cap=%d", cp), "ref": ref, "wst": "skipped", "wdump": pNone(), "rst": "ok",
+			"g1": dumpIface(nil), "g2": dumpIface(nil), "proto": env.text}
+		var out []byte
+		func() {
+			defer func() {
+				if e := recover(); e != nil {
+					ev["wst"] = "panic:" + fmt.Sprint(e)
+				}
+			}()
+			p := &dbin.BinaryProtocol{Buf: make([]byte, 0, cp)}
+			if err := p.WriteAnyWithDesc(env.droot, gv, false, true, true, true); err != nil {
+				ev["wst"] = "err"
+				return
+			}
+			out = append([]byte{}, p.Buf...)
+			wd, err := refDecode(env.rroot, out)
+			if err != nil {
+				ev["wst"] = "reference-rejects"
+				return
+			}
+			ev["wst"], ev["wdump"] = "ok", wd
+		}()
+		key := fmt.Sprint(ev["wst"]) + string(out)
+		if seen[key] {
+			continue
+		}
+		seen[key] = true
+		c.out.Emit(ev)
+	}
+}
+
 func (c *c20) msg(env *pbEnv, m protoreflect.Message) {
 	for _, byName := range []bool{true, false} {
 		api := "ByNumber"
@@ -467,7 +509,11 @@ func (c *c20) run(seed int64, n int, maxLen int) {
 				die("schema printed by the harness was rejected: %v", err)
 			}
 			for k := 0; k < 4; k++ {
-				c.msg(env, randMsgPB(rr, env.rroot, 0, pbGenCfg{maxStr: 200}))
+				m := randMsgPB(rr, env.rroot, 0, pbGenCfg{maxStr: 200})
+				c.msg(env, m)
+				if k == 0 {
+					c.capSweep(env, m)
+				}
 			}
 		})
 	}
